@@ -127,9 +127,12 @@ def obligations(tier):
                 cp_post(), dict(order=N, options=opt), "sign invariant preserved by a sweep and returned at every exit", side_nonzero=True)
         hals_modes = [("all", "all", None)] + [(f"{{{m}}}", {m}, [m]) for m in range(N)] + ([("{0,1}", {0, 1}, [0, 1])] if N >= 3 else [])
         for tag, nnm, check in hals_modes:
-            for opt, kwargs in [("plain", dict()), ("normalize_factors", dict(normalize_factors=True)), ("sparsity", dict(sparsity_coefficients=[0.1] * N))]:
-                if opt != "plain" and tag != "all":
+            for opt, kwargs in [("plain", dict()), ("normalize_factors", dict(normalize_factors=True)), ("sparsity", dict(sparsity_coefficients=[0.1] * N)),
+                                ("fixed_mode_0", dict(fixed_modes=[0])), ("fixed_mode_1", dict(fixed_modes=[1]))]:
+                if opt in ("normalize_factors", "sparsity") and tag != "all":
                     continue
+                if opt.startswith("fixed") and (N < 3 or tag == "all"):
+                    continue   # (a fixed mode shifts positions in the update sequence against mode numbers: with strict subsets of non-negative modes, order 3)
                 add("_nn_cp:non_negative_parafac_hals", f"N={N},nn_modes={tag},{opt}", cp_setup(N),
                     lambda I, kwargs=kwargs, nnm=nnm: run_cp(_nn.non_negative_parafac_hals, _nn, I, dict(kwargs, return_errors=True, nn_modes=nnm), stubs=dict(hals_nnls=nn_stub("HALS", holder))),
                     cp_post(check), dict(order=N, nn_modes=tag, options=opt), "sign invariant on exactly the declared non-negative modes", side_nonzero=True)
@@ -175,7 +178,7 @@ def obligations(tier):
                                             stubs=dict(hals_nnls=nn_stub("HALS", holder), fista=nn_stub("FISTA", holder), active_set_nnls=nn_stub("ASET", holder))),
                 tk_post, dict(order=N, core_solver=algo), "sign invariant preserved by a sweep and returned at every exit", side_nonzero=True)
     # ====================================================================== PARAFAC2 line search: iterates clipped on non-negative modes
-    for nnm in ([0], [2], [0, 2]):
+    for nnm in ([0], [2], [0, 2], (0, 2), {0, 2}, (2,)):   # (the declaration may be a list, a tuple or a set)
         def setup(S):
             K = atom("K")
             return dict(_S=S, Xs=[S.input(f"X{i}", [atom(f"J{i}"), K]) for i in range(2)], w=S.input("w", [R], nonneg=True),
@@ -186,14 +189,14 @@ def obligations(tier):
             S = I["_S"]
             import tensorly.parafac2_tensor as p2t
             from .c03 import _noval
-            ls = _p2._BroThesisLineSearch(I["nrm"], "truncated_svd", verbose=False, nn_modes=list(nnm))
+            ls = _p2._BroThesisLineSearch(I["nrm"], "truncated_svd", verbose=False, nn_modes=nnm)
             def go():
                 with stubbed(_p2, _compute_projections=lambda ts, fs, svd: list(I["P"]), _validate_parafac2_tensor=p2t._validate_parafac2_tensor):
                     return ls.line_step(8, list(I["Xs"]), list(I["fl"]), I["w"], list(I["fs"]), list(I["P"]), I["err"])
             f, p, e = _noval(p2t, go)
             return list(f)
-        add("_parafac2:_BroThesisLineSearch.line_step", f"nn_modes={nnm}", setup, call,
-            lambda S, I, r, nnm=nnm: [(f"mode {m} of the iterate returned by the line search (accepted or rejected) >= 0", S.is_nonneg(r[m]), True) for m in nnm],
+        add("_parafac2:_BroThesisLineSearch.line_step", f"nn_modes={type(nnm).__name__} {sorted(nnm)}", setup, call,
+            lambda S, I, r, nnm=nnm: [(f"mode {m} of the iterate returned by the line search (accepted or rejected) >= 0", S.is_nonneg(r[m]), True) for m in sorted(nnm)],
             dict(nn_modes=str(nnm)), "line-search iterates are clipped on the non-negative modes")
     # ====================================================================== callee contracts used above, discharged here too: the inner NNLS solvers return
     # entries >= eps >= 0 (the same loop-cut bodies as C13, E1-dense + z3 at enumerated sizes; only the sign clause is claimed under C10)
